@@ -1,8 +1,13 @@
 #!/usr/bin/env python3
-"""Regenerate harness/src/c16_shapes.txt (the model's shape table as the C16 harness embeds it) from the
-Lean model: run after a change to the grammar tables (lean/RedisVerif/Model/Grammar*.lean), then rebuild.
-The copy cannot drift silently: `./check C16` compares it line by line with the live model (SH / FA ops)."""
+"""Regenerate harness/src/c16_shapes.txt (the model's shape table as the C16 harness embeds it) AND
+lean/RedisVerif/Model/GrammarShapesNF.lean (the same rows as first-order `Grammar.SRow` literals with byte
+strings spelled out: the kernel-cheap normal form of the model's table) from the Lean model: run after a change to
+the grammar tables (lean/RedisVerif/Model/Grammar*.lean), then rebuild.
+Neither copy can drift silently: `./check C16` compares c16_shapes.txt line by line with the live model (SH / FA
+ops); Props/C16Src.lean proves `rowsDescribe respRowsNF (shapeRows table)` (and the translator / family / default-arm
+counterparts) by kernel evaluation at build time, so a stale normal form does not build."""
 import os
+import re
 import subprocess
 import sys
 
@@ -23,6 +28,185 @@ def rows(prefix, op):
         i += 1
 
 
+# ---- the rows as Lean `SRow` literals (the same printer as harness/src/c16_shape.rs `lean_row`)
+
+def lbytes(b):
+    return "[" + ", ".join(str(c) for c in b) + "]"
+
+
+def lhex(h):
+    if not h.startswith("x") or len(h) % 2 != 1:
+        raise ValueError(h)
+    return lbytes(bytes.fromhex(h[1:]))
+
+
+def lword(w):
+    return lbytes(w.encode())
+
+
+def larity(a):
+    if a == "any":
+        return ".any"
+    for pre, ctor in (("even-ge", ".evenAtLeast"), ("odd-ge", ".oddAtLeast"), ("eq", ".exact"), ("ge", ".atLeast")):
+        if a.startswith(pre):
+            return f"{ctor} {int(a[len(pre):])}"
+    if a.startswith("in"):
+        lo, hi = a[2:].split("-")
+        return f".between {int(lo)} {int(hi)}"
+    raise ValueError(a)
+
+
+def larg(a):
+    k, _, e = a.partition("!")
+    if k not in ("str", "sds", "int", "u64", "flt", "usz", "kw", "u32"):
+        raise ValueError(a)
+    return f"⟨.k .{k}, {'some ' + lhex(e) if e else 'none'}⟩"
+
+
+def largs(s):
+    return "[]" if s == "-" else "[" + ", ".join(larg(a) for a in s.split(",")) + "]"
+
+
+def ltail(s):
+    if s in ("none", "ignore", "raw", "scan"):
+        return "." + s
+    p = s.split(":")
+    if p[0] == "many" and len(p) == 2:
+        return f".many {larg(p[1])}"
+    if p[0] == "pairs" and len(p) == 3:
+        return f".pairs {larg(p[1])} {larg(p[2])}"
+    if p[0] == "flags" and len(p) == 4:
+        return f".flags {larg(p[1])} {larg(p[2])} {lhex(p[3])}"
+    raise ValueError(s)
+
+
+def lopts(s):
+    if s == "-":
+        return "[]"
+    out = []
+    for o in s.split("|"):
+        p = o.split(":")
+        m = p[2][2:]
+        mm = {"-": ".na", "crash": ".crash", "ignore": ".ignore"}.get(m) or f".text {lhex(m)}"
+        r = f"some {lhex(p[3][2:])}" if len(p) > 3 else "none"
+        out.append(f"⟨{lword(p[0])}, {largs(p[1])}, {mm}, {r}⟩")
+    return "[" + ", ".join(out) + "]"
+
+
+def lunk(s):
+    if s == "-":
+        return ".na"
+    if s == "break":
+        return ".brk"
+    k, _, h = s.partition(":")
+    return f".{k} {lhex(h)}"
+
+
+def lhexlist(s, sep):
+    return "[]" if s in ("-", "") else "[" + ", ".join(lhex(h) for h in s.split(sep)) + "]"
+
+
+def lcond(s):
+    def go(i):
+        if s[i] == "(":
+            l, i = go(i + 1)
+            op = {"&&": ".and", "||": ".or"}[s[i:i + 2]]
+            r, i = go(i + 2)
+            assert s[i] == ")"
+            return f"({op} {l} {r})", i + 1
+        if s.startswith("count(", i):
+            j = s.index(")", i)
+            ws = ", ".join(lword(w) for w in s[i + 6:j].split(","))
+            m = re.match(r">(\d+)", s[j + 1:])
+            return f"(.countGt [{ws}] {int(m.group(1))})", j + 1 + m.end()
+        m = re.match(r"[A-Za-z0-9_-]+", s[i:])
+        return f"(.kw {lword(m.group(0))})", i + m.end()
+    r, i = go(0)
+    assert i == len(s), s
+    return r
+
+
+def lchecks(s):
+    if s == "-":
+        return "[]"
+    parts, cur, d = [], "", 0
+    for c in s:
+        if c == "(":
+            d += 1
+        elif c == ")":
+            d -= 1
+        if c == "|" and d == 0:
+            parts.append(cur)
+            cur = ""
+        else:
+            cur += c
+    parts.append(cur)
+    out = []
+    for p in parts:
+        c, _, t = p.rpartition(":")
+        out.append(f"({lcond(c)}, {lhex(t)})")
+    return "[" + ", ".join(out) + "]"
+
+
+def fields(line):
+    return dict(tok.split("=", 1) for tok in line.split(" ") if "=" in tok)
+
+
+def lrow(line):
+    f = fields(line)
+    ctors = "[" + ", ".join(lword(c) for c in f["ctor"].split("|") if c) + "]"
+    return (f"⟨{lword(f['name'])}, {larity(f['arity'])}, {lhex(f['aerr'])}, {ctors}, {largs(f['slots'])}, {largs(f['opt'])}, "
+            f"{ltail(f['tail'])}, {lopts(f['opts'])}, {lunk(f['unk'])}, {lhexlist(f['flits'], ';')}, {lchecks(f['checks'])}⟩")
+
+
+def lprobe(p):
+    if p.startswith("ERR_"):
+        return f"(.error {lhex(p[4:])})"
+    parts = p[3:].split("_")
+    return f"(.ok ({lword(parts[0])}, [{', '.join(lhex(t[1:]) for t in parts[1:])}]))"
+
+
+def write_nf(lines):
+    def body(xs):
+        return "[\n" + ",\n".join("  " + x for x in xs) + "\n]"
+    resp = [lrow(l[2:]) for l in lines if l.startswith("R ")]
+    lua = [lrow(l[2:]) for l in lines if l.startswith("L ")]
+    fam = []
+    for l in lines:
+        if l.startswith("F "):
+            f = fields(l[2:])
+            fam.append(f"⟨{lword(f['name'])}, {lhex(f['aerr'])}, {lprobe(f['probe'])}⟩")
+    d = fields([l for l in lines if l.startswith("D ")][0][2:])
+    text = f"""import RedisVerif.Model.GrammarSrc
+
+/-
+  M7 / GrammarShapesNF — GENERATED by tools/gen_c16_shapes.py from the Lean model (driver ops SH / FA / DF): the rows of
+  `shapeRows table` / `shapeRows luaTable`, the families and the default arms as first-order `SRow` / `SFamily`
+  literals with every byte string spelled out.  It is the kernel-cheap normal form of the hand-written tables
+  (`String.toList` on a literal costs the kernel milliseconds per character; a list of numerals costs nothing):
+  `Props/C16Src.lean` proves ONCE, at build time, that these literals describe the hand-written tables
+  (`respRowsNF_describes` …), and the tables regenerated from the source on every run are then compared with the
+  literals (equality of literals: seconds).  Do not edit; regenerate after a change to the grammar tables.
+-/
+namespace RedisVerif.Grammar
+
+def respRowsNF : List SRow := {body(resp)}
+
+def luaRowsNF : List SRow := {body(lua)}
+
+def familiesNF : List SFamily := {body(fam)}
+
+def respDefaultNF : Except Bytes (Bytes × List Bytes) := {lprobe(d['resp'])}
+def luaDefaultNF : Except Bytes (Bytes × List Bytes) := {lprobe(d['lua'])}
+
+end RedisVerif.Grammar
+"""
+    path = os.path.join(ROOT, "lean", "RedisVerif", "Model", "GrammarShapesNF.lean")
+    with open(path, "w") as f:
+        f.write(text)
+    print(f"{path}: {len(resp)} + {len(lua)} rows, {len(fam)} families")
+
+
 def main():
     subprocess.run(["lake", "build", "rvdriver"], cwd=os.path.join(ROOT, "lean"), check=True)
     lines = rows("R", "SH R") + rows("L", "SH L") + rows("F", "FA") + rows("H", "HL")
@@ -32,6 +216,7 @@ def main():
     with open(path, "w") as f:
         f.write("\n".join(lines) + "\n")
     print(f"{path}: {len(lines)} rows")
+    write_nf(lines)
 
 
 if __name__ == "__main__":
